@@ -125,7 +125,9 @@ class FeatureTransformerGeneric:
 
         invalid_transforms = 0
         new_columns = dict()
-        for numeric_column in self.numeric_column_names:
+        # numeric_column_names is a set: a fixed iteration order keeps the order of the constructed columns (and hence the
+        # orientation of the pairs scored later) independent of the string hash seed of the process
+        for numeric_column in sorted(self.numeric_column_names, key=str):
             X = self.get_vals(dataframe, numeric_column)
 
             if len(X) == 0:
